@@ -117,8 +117,11 @@ def run(ck):
         ck.anchor_missing("2", "T6-provenance", "<LoopInner as IoLoopInner>::reregister")
     else:
         pr = [cs for cs in lr.calls() if cs.f and cs.f["path"] == "sys::Poll::reregister" and not lr.is_cleanup(cs.bb)]
-        ok = bool(pr) and all(T.path_has(lr, c.args[2], ".interest") and T.agg_variant(lr, c.args[3]) == {("sys::Mode", "OneShot")} and T.path_has(lr, c.args[4], ".token") and T.path_has(lr, c.args[1], ".fd") or T.tainted_by_call(lr, c.args[1], [x.bb for x in lr.calls() if x.name == "borrow_raw"]) for c in pr)
-        ok = ok and all(T.path_has(lr, c.args[2], ".interest") and T.agg_variant(lr, c.args[3]) == {("sys::Mode", "OneShot")} and T.path_has(lr, c.args[4], ".token") for c in pr)
+        from props import common as _cmn
+
+        hf = lambda op, fld: _cmn.has_field_through_callers(f, lr, op, fld)
+        ok = bool(pr) and all(hf(c.args[2], ".interest") and T.agg_variant(lr, c.args[3]) == {("sys::Mode", "OneShot")} and hf(c.args[4], ".token") and hf(c.args[1], ".fd") or T.tainted_by_call(lr, c.args[1], [x.bb for x in lr.calls() if x.name == "borrow_raw"]) for c in pr)
+        ok = ok and all(hf(c.args[2], ".interest") and T.agg_variant(lr, c.args[3]) == {("sys::Mode", "OneShot")} and hf(c.args[4], ".token") for c in pr)
         ck.verdict(ok, "2", "T6-provenance", lr, "rearm(disp.fd, disp.interest, OneShot, disp.token)", "the poller is re-armed with the dispatcher's own fd, interest and token in one-shot mode", "the re-arming does not use the dispatcher's interest/token in OneShot mode", site=lr.where())
 
     li = ck.opt_body("<LoopInner as IoLoopInner>::register")
@@ -146,17 +149,26 @@ def run(ck):
     # ---- clause 4: blocking mode ----------------------------------------------------------------------------------
     an = ck.body("4", "Async::new")
     snb = T.calls(an, name="set_nonblocking")
-    first = [c for c in snb if c.args[1].get("k", {}).get("v") == 1]
+    from props import common as _cmn4
+
+    on_val = _cmn4.nonblocking_on_value(f) or ("const", 1)
+    first = [c for c in snb if _cmn4.payload_value(an, c.args[1]) == on_val]
     ck.verdict(bool(first) and an.dominates(first[0].bb, [cs for cs in an.calls() if cs.name == "register"][0].bb if [cs for cs in an.calls() if cs.name == "register"] else 0), "4", "T3-must-precede", an, "set_nonblocking(true)-on-creation", "the fd is made non-blocking when the adapter is created", "adapt_io does not make the fd non-blocking", site=an.where())
     agg = [st for i, j, st in an.statements() if st["s"] == "assign" and st["rv"]["r"] == "agg" and st["rv"].get("adt") == "io::Async"]
     ok = False
+    was_field = None
     for st in agg:
         fld = dict(zip(st["rv"]["field_names"], st["rv"]["fields"]))
-        ok = first and T.resolves_to_call(an, fld["was_nonblocking"], [first[0].bb])
+        # the field that remembers the previous mode: the one initialised from the first call's answer (whatever it is
+        # called and however the mode is encoded)
+        for n_, o_ in fld.items():
+            if first and T.resolves_to_call(an, o_, [first[0].bb]):
+                was_field = n_
+        ok = was_field is not None
     ck.verdict(bool(ok), "4", "T6-provenance", an, "was_nonblocking=result-of-first-call", "the remembered mode is what the first set_nonblocking call reported", "Async::new does not remember the mode the fd had before", site=an.where())
     dr = ck.body("4", "<Async as Drop>::drop")
     rs = T.calls(dr, name="set_nonblocking")
-    ck.verdict(bool(rs) and all(T.path_has(dr, c.args[1], ".was_nonblocking") for c in rs) and T.t2_all_exits(dr, [0], [c.bb for c in rs]) is None, "4", "T6-provenance", dr, "drop-restores-was_nonblocking", "Drop (also reached by into_inner) restores the remembered mode on every path", "dropping the adapter does not restore the fd's previous blocking mode", site=dr.where())
+    ck.verdict(bool(rs) and all(T.path_has(dr, c.args[1], "." + (was_field or "was_nonblocking")) for c in rs) and T.t2_all_exits(dr, [0], [c.bb for c in rs]) is None, "4", "T6-provenance", dr, "drop-restores-was_nonblocking", "Drop (also reached by into_inner) restores the remembered mode on every path", "dropping the adapter does not restore the fd's previous blocking mode", site=dr.where())
     sn = ck.body("4", "io::set_nonblocking")
     getfl = [cs for cs in sn.calls() if cs.name == "fcntl_getfl"]
     setfl = [cs for cs in sn.calls() if cs.name == "fcntl_setfl"]
